@@ -86,7 +86,8 @@ theorem transplant_rep {st : PT} {t : ITree} (hr : Rep st.heap t 0) (hroot : st.
     · exact (hvmem _ h).1
   refine ⟨?_, ?_, ?_, ?_, gsize, gfresh⟩
   · refine hr.replace hnd q s' ?_ ?_ ?_
-    · intro i hi0 hi hip
+    · intro i him hi hip
+      have hi0 : i ≠ 0 := hr.ids_ne i him
       rw [hpn] at hip
       refine gother i (fun e => ?_) (fun _ => hip)
       rcases hv with h | ⟨h, _⟩
